@@ -275,19 +275,26 @@ class UnifiedRTFEncoder(EncodingStrategy):
         show_footnote_on_all = document.rtf_page.page_footnote == "all"
         show_source_on_all = document.rtf_page.page_source == "all"
 
-        # Build
+        # Build. The preamble is laid out line by line exactly as for table
+        # documents (font table closed on its own line, colour table after it),
+        # which is the layout assemble_rtf relies on.
         parts = [
-            self.encoding_service.encode_document_start(),
-            self.encoding_service.encode_font_table(),
-            self.encoding_service.encode_color_table(document),
+            "\n".join(
+                [
+                    self.encoding_service.encode_document_start(),
+                    self.encoding_service.encode_font_table(),
+                    self.encoding_service.encode_color_table(document),
+                    "\n",
+                    self.encoding_service.encode_page_header(
+                        document.rtf_page_header, method="line"
+                    ),
+                    self.encoding_service.encode_page_footer(
+                        document.rtf_page_footer, method="line"
+                    ),
+                    self.encoding_service.encode_page_settings(document.rtf_page),
+                ]
+            ),
             "\n",
-            self.encoding_service.encode_page_header(
-                document.rtf_page_header, method="line"
-            ),
-            self.encoding_service.encode_page_footer(
-                document.rtf_page_footer, method="line"
-            ),
-            self.encoding_service.encode_page_settings(document.rtf_page),
         ]
 
         for i in range(num):
